@@ -91,6 +91,24 @@ ROUND5_FIX = {
  "C16i": "in-place cycles moved chunks of 1 KiB -> 2 MiB chunks in a cycle, local and HTTP, under strace",
  "C16j": "the output never had a second hard link -> mode in-place-hardlink (both names must still be one file afterwards)",
 }
+ROUND6_FIX = {
+ "C02k": "the quick CLI leg of C02 used 64-byte hashes only -> 64 and 4 in both tiers",
+ "C02l": "seed scenarios had a handful of chunks -> a 3 MiB source in ~3000 chunks with an older version, 3 MiB of unrelated data, both, and unrelated data on stdin as seeds",
+ "C03l": "large blocks were moved by whole multiples of their size -> content-defined chunks of 1-4 MiB with 30 kB / 1.5 MiB inserted in front and 300 kB removed (a chunk's destination overlaps its own old place)",
+ "C05k": "the re-run after a crash never passed --verify-output and no scenario updated to a smaller image -> every other re-run with --verify-output (regular files), scenario in-place-to-smaller",
+ "C06k": "reads of the local reader were observed per requested range, never at the device below it -> a recording device under the real IoReader: for every subset of stored chunks of ascending / descending / mixed sizes the bytes it returns lie inside the requested chunks",
+ "C07k": "no configuration with the minimum chunk size below the window reached an HTTP clone -> seed == source over HTTP for 5 chunker configurations: no request beyond the header",
+ "C07l": "no layout ended in a short chunk shared with a shorter prior output -> layouts short-tail-shared (the C06 in-place observation is now also a leg of C07)",
+ "C08k": "fault sequences exhausted the budget inside one request or hit one later run -> failures spread over several runs, each within the budget of its own request",
+ "C12k": "all chunks of the C12 legs were far below 1 MiB -> a group with 2 MiB runs followed by 2.3 MiB of irregular text under brotli, buffered-chunks 2 and 8, repeated runs",
+ "C14k": "--verify-header was right or wrong at full length -> a prefix of the right value and the empty value (neither equals the checksum: refusal)",
+ "C14l": "the output was there or not when the command started -> it appears while the header is fetched (the server creates it before answering)",
+ "C15k": "hostile headers reached the library operations and the printing code, not the command around them -> the real clone_cmd on files with a seed that holds the archive's chunks, for every single field mutation",
+ "C15l": "the scripted server always sent a well-formed Content-Range -> five malformed values",
+ "C16l": "the archive was always a regular file or a URL -> archive path that is a named pipe (failing mode: nothing else may be written)",
+ "C17k": "no source repeated a chunk three times -> sources 0 1 0 1 0, 0 0 1 0 0, 0 1 0 0 1 0 1",
+ "C17l": "every archive of C17 recorded a minimum chunk size >= the window size -> the slack-7 slice records minimum 1 (the reader's chunker configuration is compared with the independent decoder's for every archive)",
+}
 # written by the agents, confirmed to change behaviour, but judged NOT to break the property as stated: not kept
 REJECTED = {
  "C13d": "--force-create truncates the prior output before it is scanned: the scan then finds nothing in place, so the statement (about locations the scan found) holds vacuously; the author's own notes say so",
@@ -98,7 +116,7 @@ REJECTED = {
 }
 rows = []
 for pid in [f"C{i:02d}" for i in range(1, 18)]:
-    for v in "abcdefghij":
+    for v in "abcdefghijkl":
         d = f"/tmp/seed/{pid}"
         if not os.path.exists(f"{d}/{v}.eval.json"):
             continue
@@ -114,15 +132,16 @@ for pid in [f"C{i:02d}" for i in range(1, 18)]:
         key = f"{pid}{v}"
         fpj = f"{d}/{v}.trial.quick.firstpass.json"
         missed = key in FIRST_PASS_MISSED
-        if v in "cdefghij" and os.path.exists(fpj):
+        if v in "cdefghijkl" and os.path.exists(fpj):
             fp = json.load(open(fpj))
             missed = fp.get(pid, {}).get("rc") != 1
             meta["first_pass_checks_commit"] = ("49a2c6c (the checks as they stood before the second round of seeded changes)" if v in "cd"
                                                 else "bcaeac9 (the checks as they stood before the third round of seeded changes)" if v in "ef"
                                                 else "f656d4f (the checks as they stood before the fourth round of seeded changes)" if v in "gh"
-                                                else "c549579 (the checks as they stood before the fifth round of seeded changes)")
+                                                else "c549579 (the checks as they stood before the fifth round of seeded changes)" if v in "ij"
+                                                else "b4f1cb5 (the checks as they stood before the sixth round of seeded changes)")
         if missed:
-            meta["first_pass"] = "missed by the target property's check; strengthened: " + FIRST_PASS_MISSED.get(key, ROUND2_FIX.get(key, ROUND3_FIX.get(key, ROUND4_FIX.get(key, ROUND5_FIX.get(key, "see DESIGN.md section 9")))))
+            meta["first_pass"] = "missed by the target property's check; strengthened: " + FIRST_PASS_MISSED.get(key, ROUND2_FIX.get(key, ROUND3_FIX.get(key, ROUND4_FIX.get(key, ROUND5_FIX.get(key, ROUND6_FIX.get(key, "see DESIGN.md section 9"))))))
         else:
             meta["first_pass"] = "caught by the target property's check as it stood when the change was written"
         json.dump(meta, open(meta_p, "w"), indent=1)
